@@ -57,14 +57,21 @@ def random_history(r, coin, nblocks, shared_addresses=True, many_outputs=False, 
                     op = (GC.rb(r, 32), r.randrange(3))                       # unknown outpoint
                 else:
                     op = (txs[-1].txid(), r.randrange(300))                   # index that may not exist
-                ins.append((op[0], op[1], b"\x01\x01", 0xffffffff))
+                # scriptSig lengths on both sides of the one-byte / three-byte CompactSize boundary (a 2-of-3 script-hash spend is ~253 bytes)
+                ins.append((op[0], op[1], b"\x01\x01" if r.random() < 0.7 else GC.rb(r, r.choice([0, 72, 107, 252, 253, 254, 255, 256, 300])), 0xffffffff))
             # a multi-input transaction one of whose inputs (often the first) is the null outpoint: it is NOT a coinbase
             # (a coinbase has exactly one input), so its other inputs spend what they name
             if nin >= 2 and r.random() < 0.15:
                 ins[r.choice([0, 0, len(ins) - 1])] = (b"\0" * 32, 0xffffffff, b"\x01\x03", 0xffffffff)
-            nout = r.choice([0, 1, 1, 2, 3, 4]) if not many_outputs else r.choice([1, 2, 257, 300])
+            nout = r.choice([0, 1, 1, 2, 3, 4]) if not many_outputs else r.choice([1, 2, 252, 253, 254, 255, 256, 257, 300])
             outs = [(r.choice([0, 0, 1, r.randrange(10**9)]) if r.random() < 0.3 else r.randrange(10**9), script()) for _ in range(nout)]
             t = K.Tx(ins, outs)
+            if r.random() < 0.08:
+                # counts and lengths stored wider than necessary (fd 01 00 for 1, ...): the transaction's id is the hash of the bytes
+                # as stored, and later inputs name it by that id
+                t.w_in, t.w_out = r.choice([None, 3, 5]), r.choice([None, 3, 5, 9])
+                if outs:
+                    t.w_script[("o", r.randrange(len(outs)))] = r.choice([3, 5])
             txs.append(t)
             utxos += [(t.txid(), i) for i in range(nout)]
         # forward reference inside the block: an input naming an outpoint that a LATER transaction of the same block creates
